@@ -119,11 +119,9 @@ theorem name_rules_dataset_accepted (row : Cells) (rest : List Cells) (ps : Para
   refine ⟨rfl, hcols, ?_⟩
   cases hds : lookup "dataset".toList row with
   | none =>
+    obtain ⟨m, hm⟩ := dataset_missing row hds
     have hcall1 : declCall row "validate_entities_columns" = .ok () := by simp [declCall, hcols]
-    have hcall2 : declCall row "get_validated_dataset_name" = .error (.internal "KeyError: dataset") := by
-      unfold declCall validatedDatasetName
-      rw [hds]
-      simp
+    have hcall2 : declCall row "get_validated_dataset_name" = .error (.msg m) := by simp [declCall, hm]
     simp [getEntityDeclaration, Gen.entityDeclBody, runBody, evalB, rowEnv, hcall1, hcall2] at h
   | some ds =>
     refine ⟨ds, rfl, ?_⟩
@@ -235,14 +233,12 @@ theorem saveto_in_repeat_or_on_group_rejected (decl : Bool) (root : Str) (n : Na
     (r : Cells) (rs : List Cells) (t name : Str)
     (ht : Rows.get r "type" = some t) (he : Rows.matchControl "end" false t = none)
     (hn : Rows.get r "name" = some name) (hcell : truthy (lookup savetoKey r) = true)
-    (hbad : inRepeat st = true ∨ ∃ c, Rows.matchControl "begin" true t = some c ∧ c ≠ "loop".toList) :
+    (hbad : inRepeat st = true ∨ ∃ c, Rows.matchControl "begin" true t = some c) :
     ∃ m, walk decl root n st (r :: rs) = .error (.msg m) := by
   have hp : savetoPasses decl st t (lookup savetoKey r) = false := by
-    rcases hbad with h | ⟨c, hc, hl⟩
+    rcases hbad with h | ⟨c, hc⟩
     · simp [savetoPasses, hcell, h]
-    · have := begin_contains t c hc hl
-      simp only [savetoPasses, hcell, this]
-      simp
+    · simp [savetoPasses, hcell, hc]
   obtain ⟨m, hm⟩ := (saveto_checks decl n st r t).2 hp
   exact ⟨m, by simp only [walk, ht, he, hn, hm]⟩
 
@@ -251,42 +247,45 @@ example : ∃ m, walk true "data".toList 2 []
      [("type".toList, "text".toList), ("name".toList, "q".toList), ("bind::entities:saveto".toList, "p".toList)],
      [("type".toList, "end repeat".toList)]] = .error (.msg m) := isMsg_elim _ (by decide)
 
-/-- the rejections of the row loop are the spec's, **outside the F25 shape**: if no question row that
-    carries save_to has `group` / `repeat` inside its type, every sheet the loop rejects is one the spec
-    rejects.  (Full statement without the guard is false on the pinned code: see `f25_witness`.) -/
-theorem saveto_rejections_partial (decl : Bool) (root : Str) (rows : List Cells) (m : Str)
-    (hguard : ∀ r ∈ rows, noSubstringType r = true)
+/-- **saveto_rejections.**  Every sheet the row loop rejects is one the spec rejects (no guard any more: the
+    repaired `validate_entity_saveto` tests the parsed control type). -/
+theorem saveto_rejections (decl : Bool) (root : Str) (rows : List Cells) (m : Str)
     (h : walk decl root 2 [] rows = .error (.msg m)) : Spec.saveto decl root [] rows = none := by
   have := walk_agrees decl root rows 2 []
   rw [h] at this
-  simpa [agrees, frames] using this hguard
+  simpa [agrees, frames] using this
 
-/-- F25 on the model: `select_one age_group` with save_to is rejected by the (regenerated) code although the
-    documented rules accept it — the negation of the property, with a witness. -/
-theorem f25_witness :
-    let rows := [[("type".toList, "select_one age_group".toList), ("name".toList, "s".toList),
-                  ("bind::entities:saveto".toList, "p".toList)]]
-    (∃ m, walk true "data".toList 2 [] rows = .error (.msg m)) ∧
-    Spec.saveto true "data".toList [] rows = some [("/data/s".toList, "p".toList)] := by
-  exact ⟨isMsg_elim _ (by decide), by decide⟩
+/-- the former F25 witness, now accepted: `select_one age_group` with save_to gets its bind -/
+example : okVal (walk true "data".toList 2 []
+    [[("type".toList, "select_one age_group".toList), ("name".toList, "s".toList),
+      ("bind::entities:saveto".toList, "p".toList)]]) = some [("/data/s".toList, "p".toList)] := by decide
 
 /-! ## namespace / version, and the whole mechanism against the spec -/
 
 /-- table facts (re-checked against the current source on every run) -/
 theorem features_on : Gen.entityFeatures.isEmpty = false := by decide
-theorem ns_eq : nsDecl = Spec.entitiesNs := by decide
+theorem entities_prefix_eq : entitiesPrefix = Spec.entitiesNs.1 := by decide
 theorem version_attr_eq : Gen.entitiesVersionAttr = Spec.versionAttr := by decide
 theorem entity_name_eq : entityName = Spec.S "entity" := by decide
 /-- the `save_to` column is the bind attribute `entities:saveto` -/
 theorem saveto_header_eq : Gen.savetoHeader = ("save_to", ["bind", "entities:saveto"]) := by decide
 theorem instance_tag_eq : Gen.entityInstanceTag = "entity" := by decide
 
-/-- **namespace_iff_entity.**  In every converted form: `meta/entity` exists iff the entities sheet has a row;
-    the entities namespace is declared iff it exists; `entities:entities-version` is on the model iff it exists. -/
-theorem namespace_iff_entity (root : Str) (sub : Str → Str) (entities survey : List Cells) (o : Out)
-    (h : convert root sub entities survey = .ok o) :
-    (o.entity.isSome ↔ entities ≠ []) ∧ (o.xmlns.isSome ↔ o.entity.isSome) ∧ (o.version.isSome ↔ o.entity.isSome) ∧
-    (o.entity.isSome → o.xmlns = some Spec.entitiesNs ∧ o.version = some (Spec.versionAttr, Gen.entitiesOfflineVersion)) := by
+theorem xmlns_with_entity (namespaces : Option Str) :
+    ((lookup entitiesPrefix (nsExtra namespaces true)).map fun u => (entitiesPrefix, u)) = some Spec.entitiesNs := by
+  rw [entities_ns_declared, entities_prefix_eq]
+  rfl
+
+/-- **namespace_iff_entity.**  In every converted form, for *every* value of the settings `namespaces` cell:
+    `meta/entity` exists iff the entities sheet has a row; `entities:entities-version` is on the model iff it
+    exists; when it exists the `entities` prefix is declared with the entities URI (the appended declaration
+    survives whatever the user's namespaces string contains); when it does not exist the prefix is declared
+    only if the user's own namespaces string declares it. -/
+theorem namespace_iff_entity (root : Str) (sub : Str → Str) (namespaces : Option Str) (entities survey : List Cells) (o : Out)
+    (h : convert root sub namespaces entities survey = .ok o) :
+    (o.entity.isSome ↔ entities ≠ []) ∧ (o.version.isSome ↔ o.entity.isSome) ∧
+    (o.entity.isSome → o.xmlns = some Spec.entitiesNs ∧ o.version = some (Spec.versionAttr, Gen.entitiesOfflineVersion)) ∧
+    (o.entity = none → o.xmlns = (lookup entitiesPrefix (nsExtra namespaces false)).map fun u => (entitiesPrefix, u)) := by
   unfold convert at h
   cases entities with
   | nil =>
@@ -303,13 +302,25 @@ theorem namespace_iff_entity (root : Str) (sub : Str → Str) (entities survey :
       · split at h
         · cases h
         · cases h
-          simp [features_on, ns_eq, version_attr_eq]
+          simp [features_on, version_attr_eq, xmlns_with_entity]
 
-example : (okVal (convert "data".toList id [] [[("type".toList, "text".toList), ("name".toList, "q".toList)]])).map
+/-- corollary: unless the user's own `namespaces` cell declares the prefix `entities`, the entities namespace
+    is declared exactly when an entity is declared -/
+theorem namespace_iff_entity_user (root : Str) (sub : Str → Str) (namespaces : Option Str) (entities survey : List Cells) (o : Out)
+    (huser : lookup entitiesPrefix (nsExtra namespaces false) = none)
+    (h : convert root sub namespaces entities survey = .ok o) : (o.xmlns.isSome ↔ o.entity.isSome) := by
+  obtain ⟨_, _, h3, h4⟩ := namespace_iff_entity root sub namespaces entities survey o h
+  cases he : o.entity with
+  | none => simp [h4 he, huser]
+  | some e => simp [(h3 (by simp [he])).1]
+
+example : (okVal (convert "data".toList id (some "ex=\"http://example.com/x\"".toList) []
+      [[("type".toList, "text".toList), ("name".toList, "q".toList)]])).map
     (fun o => (o.entity.isSome, o.xmlns.isSome, o.version.isSome)) = some (false, false, false) := by decide
-example : (okVal (convert "data".toList id [[("dataset".toList, "t".toList), ("label".toList, "x".toList)]]
-    [[("type".toList, "text".toList), ("name".toList, "q".toList)]])).map
-    (fun o => (o.entity.isSome, o.xmlns.isSome, o.version.isSome)) = some (true, true, true) := by decide
+example : (okVal (convert "data".toList id (some "ex=\"http://example.com/x\"".toList)
+      [[("dataset".toList, "t".toList), ("label".toList, "x".toList)]]
+      [[("type".toList, "text".toList), ("name".toList, "q".toList)]])).map
+    (fun o => (o.entity.isSome, o.xmlns, o.version.isSome)) = some (true, some Spec.entitiesNs, true) := by decide
 
 /-- one-row sheets: the declaration function and the spec's reading of the row agree in every case
     (unknown columns, missing / invalid dataset, the sixteen combinations) -/
@@ -323,12 +334,10 @@ theorem declaration_agrees (root : Str) (sub : Str → Str) (row : Cells) :
   · have hany := (extraColumns_nil_iff row).1 hcols
     cases hds : lookup "dataset".toList row with
     | none =>
+      obtain ⟨m, hm⟩ := dataset_missing row hds
       have hcall1 : declCall row "validate_entities_columns" = .ok () := by simp [declCall, hcols]
-      have hcall2 : declCall row "get_validated_dataset_name" = .error (.internal "KeyError: dataset") := by
-        unfold declCall validatedDatasetName
-        rw [hds]
-        simp
-      have : getEntityDeclaration row [] = .error (.internal "KeyError: dataset") := by
+      have hcall2 : declCall row "get_validated_dataset_name" = .error (.msg m) := by simp [declCall, hm]
+      have : getEntityDeclaration row [] = .error (.msg m) := by
         simp [getEntityDeclaration, Gen.entityDeclBody, runBody, evalB, rowEnv, hcall1, hcall2]
       rw [this]
       have hds' : lookup (Spec.S "dataset") row = none := hds
@@ -371,16 +380,15 @@ theorem declaration_agrees (root : Str) (sub : Str → Str) (row : Cells) :
     rw [if_pos this]
 
 /-- **convert_eq_spec.**  The whole mechanism (entities sheet → declaration → nodes; survey rows → saveto
-    binds; namespace and version) equals the documented specification on every input the model answers:
-    what it converts is exactly what the spec demands, and — outside the F25 shape — what it rejects the
-    spec rejects.  (The `.error` half is guarded, hence this theorem is the `…_partial` form of
-    "model = spec"; the unguarded statement is refuted by `f25_witness`.) -/
-theorem convert_eq_spec_partial (root : Str) (sub : Str → Str) (entities survey : List Cells) :
-    match convert root sub entities survey with
+    binds; namespace and version) equals the documented specification on every input the model answers, for
+    every settings `namespaces` value that does not itself declare the prefix `entities`: what it converts is
+    exactly what the spec demands, and what it rejects the spec rejects. -/
+theorem convert_eq_spec (root : Str) (sub : Str → Str) (namespaces : Option Str) (entities survey : List Cells)
+    (huser : lookup entitiesPrefix (nsExtra namespaces false) = none) :
+    match convert root sub namespaces entities survey with
     | .ok o => Spec.form root sub Gen.entitiesOfflineVersion entities survey = some o
     | .error (.unsupported _) => True
-    | .error _ => (∀ r ∈ survey, noSubstringType r = true) →
-        Spec.form root sub Gen.entitiesOfflineVersion entities survey = none := by
+    | .error _ => Spec.form root sub Gen.entitiesOfflineVersion entities survey = none := by
   unfold convert
   cases entities with
   | nil =>
@@ -390,11 +398,11 @@ theorem convert_eq_spec_partial (root : Str) (sub : Str → Str) (entities surve
     | ok sv =>
       rw [hres] at hw
       simp only [agrees, frames, List.map_nil] at hw
-      simp [Spec.form, hw]
+      simp [Spec.form, hw, huser]
     | error e =>
       rw [hres] at hw
       cases e with
-      | msg m => simp only [agrees, frames, List.map_nil] at hw; intro hg; simp [Spec.form, hw hg]
+      | msg m => simp only [agrees, frames, List.map_nil] at hw; simp [Spec.form, hw]
       | unsupported w => trivial
       | columns c => simp [agrees] at hw
       | internal w => simp [agrees] at hw
@@ -404,7 +412,6 @@ theorem convert_eq_spec_partial (root : Str) (sub : Str → Str) (entities surve
     | cons r2 rest =>
       obtain ⟨m, hm⟩ := multiple_rows_rejected row r2 rest
       rw [hm]
-      intro _
       simp [Spec.form]
     | nil =>
       have hdecl := declaration_agrees root sub row
@@ -413,9 +420,9 @@ theorem convert_eq_spec_partial (root : Str) (sub : Str → Str) (entities surve
         rw [hres] at hdecl
         cases e with
         | unsupported w => trivial
-        | msg m => simp only at hdecl ⊢; intro _; simp [Spec.form, entityPath] at hdecl ⊢; simp [hdecl]
-        | columns c => simp only at hdecl ⊢; intro _; simp [Spec.form, entityPath] at hdecl ⊢; simp [hdecl]
-        | internal w => simp only at hdecl ⊢; intro _; simp [Spec.form, entityPath] at hdecl ⊢; simp [hdecl]
+        | msg m => simp only at hdecl ⊢; simp [Spec.form, entityPath] at hdecl ⊢; simp [hdecl]
+        | columns c => simp only at hdecl ⊢; simp [Spec.form, entityPath] at hdecl ⊢; simp [hdecl]
+        | internal w => simp only at hdecl ⊢; simp [Spec.form, entityPath] at hdecl ⊢; simp [hdecl]
       | ok ps =>
         rw [hres] at hdecl
         obtain ⟨ns, hns, hspec⟩ := hdecl
@@ -429,9 +436,8 @@ theorem convert_eq_spec_partial (root : Str) (sub : Str → Str) (entities surve
           cases e with
           | msg m =>
             simp only [agrees, frames, List.map_nil] at hw
-            intro hg
             simp only [entityPath] at hspec
-            simp [Spec.form, hspec, hw hg]
+            simp [Spec.form, hspec, hw]
           | unsupported w => trivial
           | columns c => simp [agrees] at hw
           | internal w => simp [agrees] at hw
@@ -440,9 +446,9 @@ theorem convert_eq_spec_partial (root : Str) (sub : Str → Str) (entities surve
           simp only [agrees, frames, List.map_nil] at hw
           simp only [hpath, hns]
           simp only [entityPath] at hspec
-          simp [Spec.form, hspec, hw, features_on, ns_eq, version_attr_eq]
+          simp [Spec.form, hspec, hw, features_on, version_attr_eq, xmlns_with_entity]
 
-example : (okVal (convert "data".toList id [[("dataset".toList, "trees".toList), ("label".toList, "x".toList)]]
+example : (okVal (convert "data".toList id none [[("dataset".toList, "trees".toList), ("label".toList, "x".toList)]]
     [[("type".toList, "text".toList), ("name".toList, "q".toList), ("bind::entities:saveto".toList, "p".toList)]])).map
     (·.saveto) = some [("/data/q".toList, "p".toList)] := by decide
 
